@@ -5,7 +5,7 @@ from oracle_util import *  # noqa
 from tokutil import *  # noqa
 
 ID = "C02"
-LEAN_MODULE = ["SCoda.Props.C02", "SCoda.Props.Glue", "SCoda.Props.C02b"]
+LEAN_MODULE = ["SCoda.Props.C02", "SCoda.Props.Glue", "SCoda.Props.C02b", "SCoda.Props.TokTie"]
 LEVEL = "proof"
 CLAUSES = [
     ("the vocabulary maps its tokens one-to-one onto the consecutive ids 0..size-1 (for duplicate-free bins: known finding D16)",
@@ -26,6 +26,8 @@ CLAUSES = [
       "SCoda.C02b.prefixes_used", "SCoda.C02b.parse_render_statement_false", "SCoda.C02b.vocab_tokens_parse_statement_false"]),
     ("glue: the merge/pairing code in front of the tokeniser core hands it events whose channels are track indices (hypothesis ChannelsOk)",
      ["SCoda.Glue.extract_channels"]),
+    ("TIE BY TRANSLATION, tokeniser: MultiTrackLargeVocabularyNotelikeTokeniser is re-translated statement by statement on every run (Gen/TokFns.lean, tools/py2lean_tok.py: __init__, _construct_dictionary, tokenise with its closure _apply_rest as a fuelled loop, detokenise, get_info, encode, decode; f-strings as string concatenation, dicts as association lists, floats as exact rationals) and each translation is proved equal to the hand model the theorems above are about, on rendered token strings: _construct_dictionary never raises and stores exactly the model's vocabulary sequence (rendered) after the four literal ids, dictionary_size = the model's dictionarySize, __init__ fills defaults / sorts / builds the vocabulary as the model configuration says; encode / decode = the model's id maps",
+     ["SCoda.TokTie.constructDictionary_all", "SCoda.TokTie.constructDictionary_eq", "SCoda.TokTie.constructDictionary_dictionary", "SCoda.TokTie.dictionarySize_eq", "SCoda.TokTie.tokInit_eq'", "SCoda.TokTie.encode_eq", "SCoda.TokTie.decode_eq", "SCoda.TokTie.tokenise_eq", "SCoda.TokTie.detokenise_eq"]),
 ]
 RULE = ("configurations: 16 flag combinations x velocity_bins x tracks 1..3 x pitch ranges x value sets (quick: 24 sampled, "
         "thorough: the lattice); the whole Python dictionary is compared with the model's rendered vocabulary entry by entry; "
